@@ -76,6 +76,15 @@ def run_impl(case, d):
     rows = fw.dump_frame(ta.t.get_trace(rank), sym)
     names = sorted({r["name"] for r in rows if r["stream"] == -1 and r["cat"] == "cpu_op"})
     ops = rng.sample(names, min(3, len(names))) + ["no::such_op"]
+    # names with characters that mean something in a regular expression (the operator name is matched as a plain substring), whole and in part
+    meta = sorted({r["name"] for r in rows if r["stream"] == -1 and any(ch in r["name"] for ch in "()[]+|.*<>#")})
+    if meta:
+        m = rng.choice(meta)
+        ops.append(m)
+        cut = [k for k, ch in enumerate(m) if ch in "()[]+|*"]
+        if cut:
+            k = rng.choice(cut)
+            ops.append(m[max(0, k - 4):k + 3])
     if rng.random() < 0.5 and names:
         ops.append("aten::")          # a substring shared by many operators
     queries = []
